@@ -424,7 +424,8 @@ def rule_ovf(env, shared):
                             guarded = True
                             # ... and by no more than what is left from the position that was seen: a single-threaded
                             # history then never moves the counter beyond LEN, whatever LEN is
-                            if am[0] == "int" or op_.le(am, ("bin", "Sub", Lc2, f[1])):
+                            if am[0] == "int" or op_.le(am, ("bin", "Sub", Lc2, f[1])) \
+                                    or op_.le(am, ("call", "saturating_sub", (Lc2, f[1]))):
                                 rest = True
                     if not guarded and am[0] == "int":
                         # a constant step may instead be guarded by saturation: the counter is not advanced once it reads
